@@ -60,6 +60,13 @@ def check(rep, an, tier):
                              config=res.config,
                              msg="an initial value of the extremum (`initial=`, or a running maximum kept in a zero-initialised buffer) adds a phantom sample to every projection: with center=True (no mean subtraction) the result is the "
                                  "mean width of hull(X ∪ {initial}) — not translation invariant, and different from the loop path")
+            for ev in res.events("abs_of_extremum"):
+                if "X" in {o.split("|")[0] for o in ev.d["of"].flat().data}:
+                    rep.violated("R-QTY", "the width along a direction is max − min of the projections", where=ev.loc, construct=ev.text()[:80], entry=entry,
+                                 config=res.config,
+                                 msg=f"the extent on one side is taken as |{ev.d['which']}(projection)|: that is the distance from the ORIGIN, equal to "
+                                     f"−min only while the origin lies inside the projected cloud — with center=True (no mean subtraction) the "
+                                     f"result is not translation invariant and differs from the loop path")
             R.rule_purity(rep, res, entry)
             R.rule_index_space(rep, res, entry)
             R.rule_dtype(rep, res, entry)
